@@ -66,8 +66,9 @@ class C16:
             "625 lamp combinations, DM22 request bytes for boundary SPNs x all 32 FMI x both request kinds; end-to-end cases are "
             "drawn by Hypothesis: layer, 1-4 cycles each with a lamp dict (any subset of pl/awl/rsl/mil, states 0..4) and 1..400 "
             "trouble codes (classes 1 / 2-3 / 14-16 / 100 / 400), cycle time above ('long', every cycle must arrive) or below "
-            "('short', every received value must have been supplied, no more often than supplied) the transfer duration, 1-2 subscribers, in one case of three the sending Dm1 object also subscribes while a foreign node sends DM1 in between and the application hands out one persistent lamp dict, then "
-            "stop_send and three further cycle times of silence; non-trivial (e2e) = at least one multi-frame DM1 was received; "
+            "('short', every received value must have been supplied, no more often than supplied) the transfer duration, 1-2 subscribers, in one case of three the sending Dm1 object also subscribes while a foreign node sends DM1 in between and the application hands out one persistent lamp dict, a data callback that takes 0 / 5 / 30 ms, then "
+            "stop_send - from the application between cycles, from inside the data callback, or from the application while the "
+            "data callback is running - and three further cycle times of silence; non-trivial (e2e) = at least one multi-frame DM1 was received; "
             "every codec block is non-trivial; distinct = distinct blocks / parameter sets")
     ASSUMPTIONS = [
         "lamp states are members of DtcLamp (0..4); SPN < 2^19, FMI < 32, OC < 128 (the documented field widths)",
